@@ -6,6 +6,7 @@ import (
 	"fmt"
 	"io/ioutil"
 	"os"
+	"path/filepath"
 	"reflect"
 	"strconv"
 	"strings"
@@ -593,6 +594,85 @@ func init() {
 			return "diff"
 		}
 		return "same " + hx(d.Source)
+	}
+	// tdocrel kind text1 text2: two directories, each with a file of the SAME relative name; the process changes into the
+	// first and parses the relative name, then changes into the second and parses the relative name again (a tool walking
+	// over source trees).  Each parse must see the file of the directory the process is in at that moment, and Filename /
+	// AbsFiles must point there.
+	ops["tdocrel"] = func(a []string) string {
+		old, err := os.Getwd()
+		if err != nil {
+			return "harness-error"
+		}
+		defer os.Chdir(old)
+		out := []string{}
+		for _, text := range []string{arg(a, 1), arg(a, 2)} {
+			dir, err := ioutil.TempDir("/var/tmp", "verif-rel-")
+			if err != nil {
+				return "harness-error"
+			}
+			defer os.RemoveAll(dir)
+			real, _ := filepath.EvalSymlinks(dir)
+			os.MkdirAll(dir+"/debian", 0755)
+			var rel string
+			switch arg(a, 0) {
+			case "dsc":
+				rel = "x_1.0-1.dsc"
+			case "changes":
+				rel = "x_1.0-1_amd64.changes"
+			default:
+				rel = "debian/control"
+			}
+			ioutil.WriteFile(dir+"/"+rel, []byte(text), 0644)
+			if err := os.Chdir(dir); err != nil {
+				return "harness-error"
+			}
+			rd := bufio.NewReader(strings.NewReader(text))
+			show := func(v interface{}, err error) string {
+				if err != nil {
+					return "err"
+				}
+				return "ok " + showRecord(reflect.ValueOf(v).Elem())
+			}
+			var viaReader, viaFile, where string
+			switch arg(a, 0) {
+			case "dsc":
+				x, e := control.ParseDsc(rd, real+"/"+rel)
+				y, e2 := control.ParseDscFile(rel)
+				viaReader, viaFile = show(x, e), show(y, e2)
+				if e2 == nil {
+					where = y.Filename
+				}
+			case "changes":
+				x, e := control.ParseChanges(rd, real+"/"+rel)
+				y, e2 := control.ParseChangesFile(rel)
+				viaReader, viaFile = show(x, e), show(y, e2)
+				if e2 == nil {
+					where = y.Filename
+				}
+			default:
+				x, e := control.ParseControl(rd, real+"/"+rel)
+				y, e2 := control.ParseControlFile(rel)
+				sc := func(c *control.Control, err error) string {
+					if err != nil || c == nil {
+						return "err"
+					}
+					return "ok " + showRecord(reflect.ValueOf(c.Source))
+				}
+				viaReader, viaFile = sc(x, e), sc(y, e2)
+				if e2 == nil {
+					where = y.Filename
+				}
+			}
+			if viaReader != viaFile {
+				out = append(out, "diff")
+			} else if r, _ := filepath.EvalSymlinks(filepath.Dir(where)); where != "" && !strings.HasPrefix(r+"/", real+"/") {
+				out = append(out, "elsewhere")
+			} else {
+				out = append(out, "same")
+			}
+		}
+		return strings.Join(out, " ")
 	}
 	ops["tdocfile"] = func(a []string) string {
 		text := arg(a, 1)
